@@ -765,7 +765,10 @@ def c15(ctx):
         records_read_reference=n("c15_records_read_ref"), bytes_compared_with_reference_encoder=n("c15_bytes_compared"),
         real_file_variant_cases=n("c15_file_variant_cases"), multiblock_logs=n("c15_logs_multiblock"),
         cuts=n("c15_cuts"), cuts_inside_fragmented_records=n("c15_cuts_midrecord"),
-        alterations=n("c15_alt_total"), alterations_by_kind={k: n("c15_alt_" + k) for k in ("bit", "zero", "ff", "burst", "zburst", "sector")},
+        alterations=n("c15_alt_total"), alterations_by_kind={k: n("c15_alt_" + k) for k in ("bit", "zero", "ff", "burst", "zburst", "sector", "hdrfix")},
+        type_byte_replaced_with_matching_crc=dict(illegal_type=n("c15_alt_hdrfix_illegal_type"),
+                                                   illegal_type_on_middle_fragment=n("c15_alt_hdrfix_illegal_type_on_middle_fragment"),
+                                                   other_legal_type=n("c15_alt_hdrfix_legal_type")),
         alterations_that_lost_records=n("c15_alt_lossy"), alterations_absorbed_without_loss=n("c15_alt_absorbed"),
         torn_tail_exemptions=n("c15_alt_torn_tail_exempt"), records_checked_for_resume_after_damage=n("c15_alt_resume_records_checked"),
         crc_length_alignment_pairs=n("c15_crc_len_align"), crc_chained_splits=n("c15_crc_splits"),
@@ -780,7 +783,7 @@ def c15(ctx):
              "against a bitwise reference for all lengths 0..4096 x alignments 0..15 on the portable and the hardware path; "
              "distinct = (fragment-type sequence, damage location class) shapes",
         evaluations=evaluations, distinct_nontrivial=agg.d("c15_shape"), extras=extras,
-        floors=dict(grid=(n("c15_cases_grid"), 5000), cuts=(n("c15_cuts"), 50000), alts=(n("c15_alt_total"), 20000),
+        floors=dict(grid=(n("c15_cases_grid"), 5000), cuts=(n("c15_cuts"), 50000), alts=(n("c15_alt_total"), 20000), hdrfix_middle=(n("c15_alt_hdrfix_illegal_type_on_middle_fragment"), 50),
                     crc=(n("c15_crc_len_align"), 60000), shapes=(agg.d("c15_shape"), 500)),
         assumptions=["harness/refcodec.c (no lcdb headers) implements the LevelDB log format and the bitwise CRC-32C",
                      "an altered file that is byte-for-byte a legal cut of a valid log falls under the truncation clause"])
